@@ -905,6 +905,9 @@ func ComparisonExpr(query *Query, current Map, expr *sqlparser.ComparisonExpr, o
 				switch value := value.(type) {
 				case Map:
 					{
+						if len(value) > 1 {
+							return false, EXPECTATION_FAILED.Extend("failed to build `IN` expression. the subquery returns more than one column")
+						}
 						for _, value := range value {
 							if v, ok := value.(*float64); ok {
 								value = *v
@@ -940,6 +943,9 @@ func ComparisonExpr(query *Query, current Map, expr *sqlparser.ComparisonExpr, o
 			for _, value := range rightArray {
 				// a row of a subquery stands for the value of its only column, as in the IN arm
 				if row, ok := value.(Map); ok {
+					if len(row) > 1 {
+						return false, EXPECTATION_FAILED.Extend("failed to build `NOT IN` expression. the subquery returns more than one column")
+					}
 					for _, column := range row {
 						value = column
 						break
